@@ -319,6 +319,17 @@ def run(tier):
             graphs.append((n, edges, oneof))
             reqs.append({"op": "gen", "schema_path": scratch_file(graph_sdl(n, edges, oneof, tname="tree_in%d"), "graphql", "c12"),
                          "query_text": query.replace("In0", "tree_in0"), "options": ALT, "tokens": False, "edges": True})
+            # several operations in ONE document (one generator call, one module per operation): an operation that
+            # uses only a non-recursive input comes first, the one with the recursive input second, a third has no
+            # variables; where the indirection goes is a matter of the types, not of which operation is generated first
+            variant_of[len(graphs)] = "multi-operation document, plain-input operation first"
+            if n == 1:
+                skip_idx.append(len(graphs))
+            graphs.append((n, edges, oneof))
+            multi_sdl = graph_sdl(n, edges, oneof).replace("type Q { ", "type Q { g(p: Plain): Int h: Int ") + "input Plain { v: Int w: [Plain!] }\n"
+            reqs.append({"op": "gen", "schema_path": scratch_file(multi_sdl, "graphql", "c12"),
+                         "query_text": "query First($p: Plain) { g(p: $p) }\n" + query + "query Last { h }\n",
+                         "options": DEFAULT_OPTS, "tokens": False, "edges": True})
             if n == 1 or all(tuple(v) in ((), ("T",)) for v in edges.values()):
                 # skip-none: compiled below, the JSON must not show the indirection either (a None member is omitted)
                 variant_of[len(graphs)] = "skip_serializing_none"
